@@ -57,6 +57,13 @@ func init() {
 		Quiet()
 		return RunDiamMsg(a[1], a[2])
 	}
+	Modes["cdrfile"] = func(a []string) error {
+		if len(a) != 3 {
+			return fmt.Errorf("cdrfile <prefix> <cases.json> <out.ndjson>")
+		}
+		Quiet()
+		return RunCdrFile(a[1], a[2])
+	}
 	Modes["abmf"] = func(a []string) error {
 		if len(a) != 3 {
 			return fmt.Errorf("abmf <prefix> <behaviours.json> <out.ndjson>")
